@@ -3,9 +3,13 @@
 /repo's HEAD (/repo itself is not touched).  usage: tools/rerun_mutants.py [Cxx] [--workers 6]
 prints one line per mutant; exit 1 if an unexpected one is not detected"""
 import glob, os, subprocess, sys, threading
-args = [a for a in sys.argv[1:] if not a.startswith("--")]
-pref = args[0] if args else ""
-workers = int(sys.argv[sys.argv.index("--workers") + 1]) if "--workers" in sys.argv else 6
+argv = sys.argv[1:]
+workers = 6
+if "--workers" in argv:
+    i = argv.index("--workers")
+    workers = int(argv[i + 1])
+    del argv[i:i + 2]
+pref = argv[0] if argv else ""
 # mutants that are NOT violations by design (reported as drift / equivalent): see DESIGN.md section 10
 EXPECTED_UNDETECTED = {"C11/typed_receive_no_assert.diff"}
 BASE = "/tmp/rerun_wt"
